@@ -151,6 +151,20 @@ PROPS = {
         'not_decided': [],
     },
 }
+# a property whose statement presupposes another mechanism also runs that mechanism's obligations:
+# a change that breaks the walk or the expression semantics breaks "-delete removes exactly the matched entries" too
+DEPENDS = {
+    'C10': ['C01', 'C02', 'C03'],   # same set and order as -depth EXPR -print
+    'C09': ['C01'],                 # "once for each file on which the action is reached, at that point of the evaluation"
+    'C08': ['C01'],
+    'C03': ['C02'],                 # visit order presupposes the configured walk
+    'C18': ['C02'],
+    'C07': ['C05'],                 # xargs -0 splitting
+    'C20': ['C05'],
+    'C06': ['C04'],
+}
+for pid, d in DEPENDS.items():
+    PROPS[pid]['depends'] = d
 for k in PROPS.values():
     k.setdefault('trusted', [])
     k['trusted'] = COMMON_TRUST + k['trusted']
